@@ -30,7 +30,9 @@ RULE = (
     "set of returned tables must agree (the ORDER of the keys of the returned dict does depend on the hash seed in the "
     "historical client; that is not table content and is not asserted). (c) seeds: equal seeds equal results (a); a different seed changes some result "
     "(anti-vacuity, reported). Non-trivial: a history in which request i is run at least twice with a different request "
-    "in between. Distinct = history shape (sequence of rule names and estimators)."
+    "in between. (d) one election with >20 reporting units and outlier models on, a bootstrap margin request and a "
+    "conformal vote-count request run alternately on the SAME frame objects: each result equals the request's result on "
+    "fresh frames. Distinct = history shape (sequence of rule names and estimators)."
 )
 ASSUMPTIONS = [
     "bitwise comparison on canonicalised tables (numeric columns as float64, dtype not compared)",
@@ -41,8 +43,8 @@ FLOOR = {"quick": 15, "thorough": 100}
 
 def parts(tier):
     if tier == "quick":
-        return [{"name": "machine", "n": 64}, {"name": "subprocess", "n": 16}, {"name": "seed", "n": 32}]
-    return [{"name": "machine", "n": 800}, {"name": "subprocess", "n": 240}, {"name": "seed", "n": 480}]
+        return [{"name": "machine", "n": 64}, {"name": "subprocess", "n": 16}, {"name": "seed", "n": 32}, {"name": "frames", "n": 48}]
+    return [{"name": "machine", "n": 800}, {"name": "subprocess", "n": 240}, {"name": "seed", "n": 480}, {"name": "frames", "n": 800}]
 
 
 def small_case(**kw):
@@ -299,7 +301,58 @@ def check_seed(case, ctx):
         ctx.nontrivial("seed|" + jhash([case["req"], len(case["units"])]), {"part": "seed", "request": common.summarize_case(case)["request"], "other_seed_changes_result": bool(changed)})
 
 
+# ---- (d) one loaded baseline / feed, several different requests ---------------------------------------------------------
+@st.composite
+def _frames_strategy(draw):
+    """One election with more than 20 reporting units and outlier models on, and two requests on it: a bootstrap
+    margin request and a conformal vote-count request."""
+    a = draw(small_case(estimators=("bootstrap",), outliers=(True,), slack=(12, 20), max_other=10, min_nonrep=2, allow_state_blocklist=False))
+    b = draw(small_case(estimators=("nonparametric", "gaussian"), outliers=(True,), max_other=0, allow_state_blocklist=False))
+    for k in ("office", "gut", "states", "float_votes", "units", "extra"):
+        b[k] = copy.deepcopy(a[k])
+    valid = gen.valid_aggregates(a["office"]) + ["unit"]
+    b["req"]["aggregates"] = [x for x in b["req"]["aggregates"] if x in valid] or ["postal_code", "unit"]
+    b["req"]["mp"].pop("unit_blocklist", None)
+    if a["req"]["mp"].get("unit_blocklist"):
+        b["req"]["mp"]["unit_blocklist"] = list(a["req"]["mp"]["unit_blocklist"])
+    return {"pool": [a, b], "order": draw(st.permutations([0, 1, 0, 1]))}
+
+
+def check_frames(case, ctx):
+    """Every request's result on frame objects that other requests have used before equals its result on fresh ones."""
+    from elexmodel.client import ModelClient
+
+    ctx.evaluated()
+    pool = case["pool"]
+    ref_keys = []
+    for c in pool:
+        r = run_case(copy.deepcopy(c))
+        ref_keys.append(("ok", digest_of(r, c["office"])) if r.ok else ("exc", type(r.exc).__name__, str(r.exc)[:200]))
+    frames = make_frames(pool[0])
+    client = ModelClient()
+    hist = []
+    for i in case["order"]:
+        c = pool[i]
+        r = run_case(c, client=client, frames=frames)
+        key = ("ok", digest_of(r, c["office"])) if r.ok else ("exc", type(r.exc).__name__, str(r.exc)[:200])
+        hist.append(["run_reusing_frames", c["req"]["pi"], i])
+        if key != ref_keys[i]:
+            ctx.violation(
+                "result_differs",
+                f"request {i} ({c['req']['pi']} {c['req']['estimands']}) on frame objects already used by {hist[:-1]}: {key[:2]}; on fresh frames {ref_keys[i][:2]}",
+                {"case": c, "history": hist, "pool": pool, "index": i, "shared": True},
+                sig=f"{c['req']['pi']}|run_reusing_frames",
+            )
+            return
+    ctx.label("frames:" + "+".join(p["req"]["pi"] for p in pool))
+    if all(k[0] == "ok" for k in ref_keys):
+        ctx.nontrivial("frames|" + jhash([p["req"] for p in pool] + [list(case["order"])]), {"part": "frames", "order": list(case["order"]), "requests": [common.summarize_case(p)["request"] for p in pool]})
+
+
 def run_part(name, seed, n, tier, ctx, si, sc):
+    if name == "frames":
+        hyp_run(_frames_strategy(), lambda case: check_frames(case, ctx), seed, n, tier)
+        return
     if name == "machine":
         run_machine(seed, n, tier, ctx)
     elif name == "subprocess":
